@@ -37,7 +37,9 @@ class World:
         self.size = size
 
     def swapped(self):
-        return World(dict((p, INV[o]) for p, o in self.ords.items()), {"L": self.eng.get("R"), "R": self.eng.get("L")},
+        eng = dict((k, v) for k, v in self.eng.items() if k not in ("L", "R"))
+        eng.update({"L": self.eng.get("R"), "R": self.eng.get("L")})
+        return World(dict((p, INV[o]) for p, o in self.ords.items()), eng,
                      INV[self.lex] if self.lex else None, INV[self.size] if self.size else None)
 
     def show(self):
@@ -49,6 +51,8 @@ class World:
         for s in ("L", "R"):
             if self.eng.get(s) is not None:
                 parts.append("%s %s" % ("lhs" if s == "L" else "rhs", "engaged" if self.eng[s] else "disengaged"))
+        if self.eng.get("same-type") is not None and self.ords.get(".index()", "=") != "=":
+            parts.append("the two alternatives have %s type" % ("the same" if self.eng["same-type"] else "a different"))
         return ", ".join(parts)
 
 
@@ -94,6 +98,8 @@ class Evaluator:
             n = e["n"]
             if n in self.sides:
                 return ("opnd", self.sides[n])
+            if n in getattr(self, "visit_bind", {}):
+                return self.visit_bind[n]
             if n in getattr(self, "locals", {}):
                 return self.ev(self.locals[n])          # a const local stands for its initialiser
             if e.get("q", "").endswith("strong_ordering::equal") or n == "equal":
@@ -334,6 +340,18 @@ class Evaluator:
                     return ("bool", o == "=")
                 return ("bool", o == "<")
             raise NotModelled(n + " with unrecognised ranges")
+        if n == "visit" and len(args) == 3 and astx.strip_casts(args[0]) is not None and astx.strip_casts(args[0]).get("k") == "lambda" \
+                and len(astx.strip_casts(args[0]).get("params", [])) == 2:
+            lam = astx.strip_casts(args[0])
+            a, b = self.ev(args[1]), self.ev(args[2])
+            if a[0] == "opnd" and b[0] == "opnd" and a[1] != b[1]:
+                sub = Evaluator(self.func, self.siblings, self.world, self.probe, self.depth)
+                sub.visit_bind = {lam["params"][0]["n"]: ("subj", a[1], ".value"), lam["params"][1]["n"]: ("subj", b[1], ".value")}
+                r = sub.run_stmt(lam["body"])
+                if r is None:
+                    raise NotModelled("visitor lambda falls off the end")
+                return r
+            raise NotModelled("visit of something else than the two operands")
         if n == "visit" and len(args) == 3:
             fn = args[0]
             opn = None
@@ -357,6 +375,11 @@ class Evaluator:
                   "cmp_greater_equal": ">="}[n]
             return ("bool", self.compare(op, self.ev(args[0]), self.ev(args[1])))
         raise NotModelled("call of " + str(n))
+
+    def _is_same_type_test(self, c):
+        txt = astx.show(c, 300)
+        vb = getattr(self, "visit_bind", {})
+        return "is_same" in txt and all(("decltype(%s)" % n) in txt.replace(" ", "") for n in vb)
 
     def lex_or_total(self):
         if self.probe is not None:
@@ -384,6 +407,22 @@ class Evaluator:
                 return v
             return ("bool", self.truth(v))
         if k == "if":
+            vb = getattr(self, "visit_bind", None)
+            if s.get("constexpr") and vb and self._is_same_type_test(s.get("c")):
+                # `if constexpr (is_same_v<decltype(l), decltype(r)>)` inside a two-variant visitor: true for equal indices; for
+                # different indices it is true exactly when the two alternatives have the same type (variant<int, int>)
+                neg = astx.show(s["c"], 200).strip().startswith("!")
+                io = self.ord_of(".index()")
+                if self.probe is not None:
+                    self.probe.eng.add("same-type")
+                if io == "=":
+                    c = True
+                else:
+                    c = bool(self.world.eng.get("same-type"))
+                br = s.get("then") if (c != neg) else s.get("else")
+                if br is None:
+                    return None
+                return self.run_stmt(br)
             if s.get("constexpr") and not any(x.get("k") == "sizeofpack" for x in astx.walk_expr(s.get("c"))):
                 raise NotModelled("if constexpr")
             c = self.truth(self.ev(s["c"]))
